@@ -41,6 +41,41 @@ def angle_kind(e, defs, depth=4):
     return None
 
 
+def offset_kind(e, defs, depth=4):
+    """Kind of an offset expression: angle_kind, or the common kind of the two operands of a difference."""
+    k = angle_kind(e, defs, depth)
+    if k or depth <= 0:
+        return k
+    if isinstance(e, ast.Name) and e.id in defs:
+        return offset_kind(defs[e.id], defs, depth - 1)
+    if isinstance(e, ast.BinOp) and isinstance(e.op, ast.Sub):
+        a, b = offset_kind(e.left, defs, depth - 1), offset_kind(e.right, defs, depth - 1)
+        return a if a == b else None
+    return None
+
+
+def _angle_defs(fn_node):
+    """single_defs plus locals assigned once and afterwards only shifted by whole turns (`d -= TWOPI`): their
+    angle kind is that of the one assignment."""
+    defs = dict(single_defs(fn_node))
+    plain, shifted, other = {}, set(), set()
+    for n in walk_no_nested(fn_node):
+        if isinstance(n, ast.Assign) and len(n.targets) == 1 and isinstance(n.targets[0], ast.Name):
+            nm = n.targets[0].id
+            if nm in plain:
+                other.add(nm)
+            plain[nm] = n.value
+        elif isinstance(n, ast.AugAssign) and isinstance(n.target, ast.Name):
+            if isinstance(n.op, (ast.Add, ast.Sub)) and unparse(n.value) in ("TWOPI", "const.TWOPI", "2 * PI", "2 * const.PI", "2 * pi", "2.0 * PI", "2.0 * const.PI"):
+                shifted.add(n.target.id)
+            else:
+                other.add(n.target.id)
+    for nm in shifted - other:
+        if nm in plain and nm not in defs:
+            defs[nm] = plain[nm]
+    return defs
+
+
 def rule_r1(chk, p, t, rid="C14.R1"):
     r = chk.rule(
         rid,
@@ -83,8 +118,21 @@ def rule_r1(chk, p, t, rid="C14.R1"):
                 if isinstance(par, ast.Compare):
                     break
                 cur = par
+            manual = None
+            if not wrapped and cur in pm and isinstance(pm[cur], ast.Assign) and cur is pm[cur].value and isinstance(pm[cur].targets[0], ast.Name):
+                manual = _manual_wrap(fn.node, pm[cur].targets[0].id)
+            if manual is not None and manual == {"upper", "lower"}:
+                wrapped = True
             if wrapped:
                 r.ok(cons, "azimuth difference wrapped to (-pi, pi] before use", fn.loc(n))
+            elif manual:
+                side = "below -pi" if manual == {"upper"} else "above +pi"
+                r.violation(
+                    cons,
+                    f"one-sided-wrap:{sorted(manual)[0]}",
+                    f"`{unparse(n)}` is wrapped by hand on one side only (differences {side} are left as they are): the test is wrong in half of the 0/360 degree seam and no longer symmetric in its two arguments",
+                    fn.loc(n),
+                )
             else:
                 r.violation(
                     cons,
@@ -96,6 +144,50 @@ def rule_r1(chk, p, t, rid="C14.R1"):
         r.error("package:azimuth-differences", "no azimuth difference found in the field-of-view code (1 confirmed by hand)")
 
 
+def _manual_wrap(fn_node, name):
+    """Sides of a hand-written wrap of local ``name``: {'upper'} for `if d > pi: d -= 2 pi`, {'lower'} for
+    `if d < -pi: d += 2 pi`; None when there is no such statement."""
+    PI_T = ("PI", "const.PI", "pi", "math.pi", "np.pi")
+    TW_T = ("TWOPI", "const.TWOPI", "2 * PI", "2 * const.PI", "2 * pi", "2.0 * PI", "2.0 * const.PI")
+    sides = set()
+    for i in ast.walk(fn_node):
+        if not isinstance(i, (ast.If, ast.While)):
+            continue
+        tst = i.test
+        if not (isinstance(tst, ast.Compare) and len(tst.ops) == 1):
+            continue
+        l, op, rr = tst.left, tst.ops[0], tst.comparators[0]
+        if isinstance(rr, ast.Name) and rr.id == name:
+            l, rr = rr, l
+            op = {ast.Gt: ast.Lt, ast.GtE: ast.LtE, ast.Lt: ast.Gt, ast.LtE: ast.GtE}.get(type(op), type(op))()
+        if not (isinstance(l, ast.Name) and l.id == name):
+            continue
+        rt = unparse(rr)
+        for st in i.body:
+            if isinstance(st, ast.AugAssign) and isinstance(st.target, ast.Name) and st.target.id == name and unparse(st.value) in TW_T:
+                if isinstance(op, (ast.Gt, ast.GtE)) and rt in PI_T and isinstance(st.op, ast.Sub):
+                    sides.add("upper")
+                if isinstance(op, (ast.Lt, ast.LtE)) and rt in tuple("-" + x for x in PI_T) and isinstance(st.op, ast.Add):
+                    sides.add("lower")
+    return sides or None
+
+
+def _inline_seq_locals(fn, e):
+    """Replace single-definition locals that merely name an attribute / element (`lo, hi = self.az_mask`)."""
+    import copy
+
+    defs = single_defs(fn.node)
+
+    class T(ast.NodeTransformer):
+        def visit_Name(self, n):
+            d = defs.get(n.id)
+            if isinstance(n.ctx, ast.Load) and isinstance(d, (ast.Subscript, ast.Attribute)) and all(isinstance(x, (ast.Subscript, ast.Attribute, ast.Name, ast.Constant, ast.Load)) for x in ast.walk(d)):
+                return copy.deepcopy(d)
+            return n
+
+    return T().visit(copy.deepcopy(e))
+
+
 def _accept_predicate(fn, cfg, targets, symf, relevant):
     """OR over paths to ``targets`` of the AND of the relevant atoms with their polarity."""
     disj = []
@@ -103,9 +195,12 @@ def _accept_predicate(fn, cfg, targets, symf, relevant):
         for conj in cfg.path_conditions(tg):
             parts = []
             for node, lab in conj:
-                if node.kind != "cond" or not relevant(node.ast):
+                if node.kind != "cond":
                     continue
-                a = O.from_ast(node.ast, symf)
+                tst = _inline_seq_locals(fn, node.ast)
+                if not relevant(tst):
+                    continue
+                a = O.from_ast(tst, symf)
                 parts.append(a if lab else O.Not(a))
             disj.append(O.And(*parts))
     return O.Or(*disj)
@@ -130,7 +225,9 @@ def rule_r2(chk, p, t):
                 trues.append(n.id)
         require(trues, "Sensor.isVisible never returns True", fn.node)
 
-        def symf(e):
+        def symf(e, depth=0):
+            if isinstance(e, ast.Name) and e.id in defs and defs[e.id] is not None and depth < 4 and isinstance(defs[e.id], (ast.Subscript, ast.Attribute, ast.Name)):
+                return symf(defs[e.id], depth + 1)
             k = angle_kind(e, defs)
             if k == "az":
                 return "az"
@@ -371,7 +468,7 @@ def rule_r4(chk, p, t, rid="C14.R4"):
         require(len(rets) == 1, "RectangularFoV.inFieldOfView: single return expected", rect.node)
         e = rets[0].value
         require(isinstance(e, ast.BoolOp) and isinstance(e.op, ast.And) and len(e.values) == 2, "rectangular test is not a conjunction of two comparisons", rets[0])
-        defs = single_defs(rect.node)
+        defs = _angle_defs(rect.node)
         bad = []
         seen = set()
         for cmpn in e.values:
@@ -386,7 +483,7 @@ def rule_r4(chk, p, t, rid="C14.R4"):
             # which kind of offset?
             kinds = set()
             for n in ast.walk(lhs):
-                k = angle_kind(n, defs) if isinstance(n, (ast.Call, ast.Name)) else None
+                k = offset_kind(n, defs) if isinstance(n, (ast.Call, ast.Name)) else None
                 if k:
                     kinds.add(k)
             if kinds == {"az"}:
